@@ -118,6 +118,11 @@ typedef struct { int _s; } SampledDimensionF;
 typedef struct { int _r; } RangeDimensionF;
 static inline void SampledDimensionF_backend_samplingInterval(SampledDimensionF *self, double interval)
 { gh_interval_sets++; gh_interval_value = interval; }
+/* an alias range dimension (its ticks are the array's data) and an ordinary one: "range ticks are always in ascending order ... whichever entry point set them" */
+static inline bool RangeDimensionF_alias(const RangeDimensionF *self)
+{ return self->_r != 0; }
+static inline bool RangeDimensionF_backend_alias(const RangeDimensionF *self)
+{ return self->_r != 0; }
 static inline void RangeDimensionF_backend_ticks(RangeDimensionF *self, const vec_double *ticks)
 { gh_ticks_sets++; gh_created_ticks = ticks->data; gh_created_ticks_n = ticks->n; }
 NIX_THROWS void SampledDimension_samplingInterval_set(SampledDimensionF *self, double interval)
@@ -163,6 +168,51 @@ __CPROVER_ensures(/*rejected-touches-nothing*/ nix_exc != EXC_NONE ==> (gh_remov
 __CPROVER_ensures(/*creates-exactly-the-group-of-that-index*/ nix_exc == EXC_NONE ==> (gh_opened == 1 && gh_opened_name == index && gh_opened_create))
 __CPROVER_ensures(/*replaces-only-the-same-index*/ nix_exc == EXC_NONE ==> (gh_removed == (gh_group_exists ? 1 : 0) && (gh_removed == 0 || gh_removed_name == index)))
 NIX_CANARY(DataArrayHDF5_createDimensionGroup) __CPROVER_assigns(nix_exc, gh_removed, gh_opened, gh_removed_name, gh_opened_name, gh_opened_create)
+;
+
+/* backend/hdf5/DimensionHDF5.cpp RangeDimensionHDF5::ticks(ticks): where the ticks of a range dimension are stored.
+   "An alias range dimension always mirrors the array itself - its ticks are the array's data": an ordinary dimension stores the ticks in its own
+   data set "ticks"; an alias dimension writes them INTO THE ARRAY'S "data" data set, which is first given exactly the extent {number of ticks}
+   (so nothing of the old data survives behind them) and then written as a whole; an alias whose array has no data raises MissingAttr.
+   H5Group / DataSet are ghost records of the calls made (libhdf5 itself: assumed). */
+typedef struct { int _d; int is_alias; int has_data; } RangeDimensionHDF5;
+typedef struct { int grp; } H5GroupT;
+typedef struct { int ds; } DataSetT;
+typedef struct { size_t rank; ndsize_t d0; } NDSize1;
+#define REDIRECT_GRP 5
+#define DATA_DS 9
+extern int gh_bt_setdata, gh_bt_setdata_ticks_name, gh_bt_setextent, gh_bt_write, gh_bt_write_after_extent, gh_bt_opened; extern size_t gh_bt_extent_rank; extern ndsize_t gh_bt_extent_d0; extern const double *gh_bt_written; extern size_t gh_bt_written_n;
+static inline bool RangeDimensionHDF5_alias(const RangeDimensionHDF5 *self)
+{ return self->is_alias != 0; }
+static inline H5GroupT RangeDimensionHDF5_redirectGroup(const RangeDimensionHDF5 *self)
+{ H5GroupT g; g.grp = REDIRECT_GRP; return g; }
+static inline NDSize1 mk_NDSize1(size_t rank, ndsize_t fill)
+{ NDSize1 n; n.rank = rank; n.d0 = fill; return n; }
+static inline int c13_is(const char *s, const char *lit)
+{ size_t i = 0; while (lit[i] && s[i] == lit[i]) i++; return s[i] == lit[i]; }
+static inline void H5GroupT_setData(H5GroupT *g, const char *name, const vec_double *v)
+{ __CPROVER_assert(g->grp == REDIRECT_GRP, "the dimension's (redirected) group is written"); gh_bt_setdata++; gh_bt_setdata_ticks_name = c13_is(name, "ticks"); gh_bt_written = v->data; gh_bt_written_n = v->n; }
+extern int gh_bt_data;
+static inline bool gh_bt_has_data_answer(void)
+{ return gh_bt_data != 0; }
+static inline bool H5GroupT_hasData(const H5GroupT *g, const char *name)
+{ __CPROVER_assert(g->grp == REDIRECT_GRP && c13_is(name, "data"), "the array's data set is looked up in the redirected group"); return gh_bt_has_data_answer(); }
+static inline DataSetT H5GroupT_openData(const H5GroupT *g, const char *name)
+{ __CPROVER_assert(g->grp == REDIRECT_GRP && c13_is(name, "data"), "the array's data set is opened"); gh_bt_opened++; DataSetT d; d.ds = DATA_DS; return d; }
+static inline void DataSetT_setExtent(DataSetT *d, NDSize1 e)
+{ __CPROVER_assert(d->ds == DATA_DS, "the array's data set is resized"); gh_bt_setextent++; gh_bt_extent_rank = e.rank; gh_bt_extent_d0 = e.d0; }
+static inline void DataSetT_write(DataSetT *d, const vec_double *v)
+{ __CPROVER_assert(d->ds == DATA_DS, "the array's data set is written"); gh_bt_write++; gh_bt_write_after_extent = gh_bt_setextent; gh_bt_written = v->data; gh_bt_written_n = v->n; }
+NIX_THROWS void RangeDimensionHDF5_ticks_set(RangeDimensionHDF5 *self, const vec_double *ticks)
+__CPROVER_requires(__CPROVER_is_fresh(self, sizeof(*self)) && (self->is_alias == 0 || self->is_alias == 1) && (self->has_data == 0 || self->has_data == 1) && gh_bt_data == self->has_data && nix_exc == EXC_NONE)
+__CPROVER_requires(gh_bt_setdata == 0 && gh_bt_setextent == 0 && gh_bt_write == 0 && gh_bt_opened == 0)
+__CPROVER_requires(__CPROVER_is_fresh(ticks, sizeof(vec_double)) && ticks->n <= VEC_MAX && __CPROVER_is_fresh(ticks->data, (ticks->n ? ticks->n : 1) * sizeof(double)))
+__CPROVER_ensures(/*ordinary-dimension:ticks-stored-in-its-own-ticks-data-set*/ !self->is_alias ==> (nix_exc == EXC_NONE && gh_bt_setdata == 1 && gh_bt_setdata_ticks_name && gh_bt_written == ticks->data && gh_bt_written_n == ticks->n &&
+                  gh_bt_setextent == 0 && gh_bt_write == 0))
+__CPROVER_ensures(/*alias:the-array-data-becomes-exactly-the-ticks*/ (self->is_alias && self->has_data) ==> (nix_exc == EXC_NONE && gh_bt_setdata == 0 && gh_bt_setextent == 1 && gh_bt_extent_rank == 1 && gh_bt_extent_d0 == ticks->n &&
+                  gh_bt_write == 1 && gh_bt_write_after_extent == 1 && gh_bt_written == ticks->data && gh_bt_written_n == ticks->n))
+__CPROVER_ensures(/*alias-without-array-data-raises-and-stores-nothing*/ (self->is_alias && !self->has_data) ==> (nix_exc == EXC_MissingAttr && gh_bt_setdata == 0 && gh_bt_setextent == 0 && gh_bt_write == 0))
+NIX_CANARY(RangeDimensionHDF5_ticks_set) __CPROVER_assigns(nix_exc, gh_bt_setdata, gh_bt_setdata_ticks_name, gh_bt_setextent, gh_bt_write, gh_bt_write_after_extent, gh_bt_opened, gh_bt_extent_rank, gh_bt_extent_d0, gh_bt_written, gh_bt_written_n)
 ;
 #undef RV
 #endif
